@@ -124,6 +124,7 @@ Lemma auth_window_closed : forall S (m : mech S) (s : S) (lad : bool) (script : 
 Proof.
   intros S m s lad script. unfold auth, deferred.
   rewrite (proj2 (proj2 (proj2 gen_redaction_rule))). cbn [f_active].
+  destruct Gen.smtp_auth_defer_unconditional; [reflexivity|].
   destruct lad; [|reflexivity].
   destruct (m_start m s) as [s' [[name resp]|]]; [|reflexivity].
   destruct script as [|[c mm|] rest]; try reflexivity.
@@ -143,3 +144,51 @@ Qed.
    Reset, Noop ... of another goroutine between two SASL steps cannot open the window) *)
 Lemma gen_flag_owned_by_auth : Gen.smtp_authIsActive_writers = [bs "Client.Auth"].
 Proof. reflexivity. Qed.
+
+(* T1: on entry Auth opens the window exactly when auth-data logging is off - whatever c.debug is at that moment (debug
+   logging may be switched on later, while Auth runs) *)
+Lemma gen_entry_opens : forall lad dbg, Gen.smtp_auth_entry_opens lad dbg = negb lad.
+Proof. reflexivity. Qed.
+
+Lemma auth_x_same : forall S (m : mech S) lad a0 s script, auth_x m lad lad a0 s script = auth m lad a0 s script.
+Proof. intros. unfold auth_x, auth. rewrite gen_entry_opens. destruct lad; reflexivity. Qed.
+
+(* the records do not depend on what logAuthData becomes while Auth runs: only on its value at entry *)
+Lemma auth_x_log : forall S (m : mech S) lad_exit a0 s script,
+  o_log (f_out (auth_x m false lad_exit a0 s script)) = o_log (f_out (auth m false a0 s script)).
+Proof. intros. unfold auth_x, auth, deferred. rewrite gen_entry_opens. reflexivity. Qed.
+
+(* whatever subset of the records reaches a logger (debug logging switched on or off, the logger replaced, at any
+   moment while Auth runs): every one of them is clean *)
+Lemma auth_any_selection_clean : forall S (m : mech S) (s : S) (lad_exit a0 : bool) (script : list reply) (sel : list logrec),
+  incl sel (o_log (f_out (auth_x m false lad_exit a0 s script))) ->
+  LogOK (fun rep => rep = RBad \/ In rep script) sel.
+Proof.
+  intros S m s lad_exit a0 script sel I. rewrite auth_x_log in I.
+  pose proof (auth_log_clean S m s a0 script) as C. unfold LogOK in *. rewrite Forall_forall in *.
+  intros r Hr. apply C. apply I. exact Hr.
+Qed.
+
+(* the code as it is: when auth-data logging is switched on WHILE Auth runs, the deferred function does not clear the flag -
+   the window stays open and later traffic is logged redacted (no secret leaks; the "closes again" half of the property
+   fails for this interleaving).  Recorded known finding window-left-open-after-optin-during-auth. *)
+Lemma optin_during_auth_leaves_window_open : forall S (m : mech S) (s : S) (a0 : bool) (script : list reply),
+  Gen.smtp_auth_defer_unconditional = false ->
+  f_active (auth_x m false true a0 s script) = true.
+Proof.
+  intros S m s a0 script U. unfold auth_x, deferred. rewrite gen_entry_opens, U.
+  rewrite (proj2 (proj2 (proj2 gen_redaction_rule))). cbn [f_active negb].
+  destruct (m_start m s) as [s' [[name resp]|]]; [|reflexivity].
+  destruct script as [|[c mm|] rest]; try reflexivity. apply loop_active.
+Qed.
+
+(* T1: the deferred function of Auth clears the flag unconditionally (the repaired code) ... *)
+Lemma gen_defer_unconditional : Gen.smtp_auth_defer_unconditional = true.
+Proof. reflexivity. Qed.
+
+(* ... so the window is closed at every return also when logAuthData was changed while Auth ran *)
+Lemma auth_x_window_closed : forall S (m : mech S) (s : S) (lad_entry lad_exit a0 : bool) (script : list reply),
+  f_active (auth_x m lad_entry lad_exit a0 s script) = false.
+Proof.
+  intros. unfold auth_x, deferred. rewrite (proj2 (proj2 (proj2 gen_redaction_rule))), gen_defer_unconditional. reflexivity.
+Qed.
